@@ -393,7 +393,7 @@ func serveOptions(c *Ctx, ec *eCase) {
 		if r.Intn(2) == 0 {
 			ec.setOpt("shared")
 		}
-		if r.Intn(2) == 0 {
+		if r.Intn(2) == 0 || ec.preferStatic {
 			ec.setOpt("static")
 		}
 	}
@@ -624,7 +624,10 @@ func scenLang(c *Ctx) *eCase {
 	if r.Intn(4) == 0 {
 		ec.lang = []string{"nor", "eng", "fra"}[r.Intn(3)]
 	}
-	if r.Intn(2) == 0 {
+	tick := c.Counts["gen:scenLang"]
+	c.Count("gen:scenLang")
+	ec.preferStatic = true
+	if tick%3 == 0 {
 		ec.inputs = ins("", "1", "0", "2", "0", "1")
 	} else {
 		// a language-dependent symbol is looked up before the language changes and again afterwards
@@ -846,7 +849,25 @@ func scenCatchHub(c *Ctx) *eCase {
 	return ec
 }
 
-var scenarios = []func(*Ctx) *eCase{scenNewlineLast, scenDeep, scenUtf8, scenCroak, scenLang, scenReload, scenBlanks, scenWild, scenCatchRel, scenEnds, scenSizes, scenRefused, scenCatchHub}
+// consecutive requests whose stored records have the same length and differ in several places (a reloaded value of
+// fixed length, the move counter): a store that treats "same size" specially shows up here
+func scenSameLen(c *Ctx) *eCase {
+	r := c.Rng
+	ec := newScenario(0)
+	ec.node("root", "Root", GInstr{Op: "MOUT", A: "edit", B: "1"}, GInstr{Op: "HALT"}, GInstr{Op: "INCMP", A: "edit", B: "1"})
+	ec.node("edit", "Edit {{.name}}", GInstr{Op: "LOAD", A: "name", N: 20}, GInstr{Op: "MAP", A: "name"}, GInstr{Op: "MOUT", A: "again", B: "5"}, GInstr{Op: "MOUT", A: "back", B: "0"},
+		GInstr{Op: "HALT"}, GInstr{Op: "INCMP", A: "_", B: "0"}, GInstr{Op: "RELOAD", A: "name"}, GInstr{Op: "MOVE", A: "."})
+	ec.catchNode()
+	vals := []string{"yes-yes", "nop-nop", "abc-xyz", "1234567"}
+	for i := 0; i < 12; i++ {
+		ec.exts = append(ec.exts, extRule{sym: "name", callIdx: i, content: vals[(i+r.Intn(3)+1)%4]})
+	}
+	ec.exts = append(ec.exts, extRule{sym: "name", callIdx: -1, content: "default"})
+	ec.inputs = ins("", "1", "5", "5", "5", "5", "0", "1")
+	return ec
+}
+
+var scenarios = []func(*Ctx) *eCase{scenNewlineLast, scenDeep, scenUtf8, scenCroak, scenLang, scenReload, scenBlanks, scenWild, scenCatchRel, scenEnds, scenSizes, scenRefused, scenCatchHub, scenSameLen}
 
 func genScenarioCases(c *Ctx, n int) []string {
 	var ls []string
